@@ -1,7 +1,215 @@
-/- I3.Model.Limbs — raw limb-kernel ops (driver side); wired to I3.Gen.Limbs by T2. -/
+/-
+  I3.Model.Limbs — driver glue for the raw limb-level ops: evaluates the kernels translated from
+  /repo by T2 (I3.Gen.FFLimbs / FFGLimbs) on the limbs sent by the harness, and the value-level
+  reference (`…Spec`) for the same op.  The op's route suffix selects the aliasing variant.
+-/
+import I3.Exec.Field
+import I3.Gen.Consts
+import I3.Gen.FFLimbs
+import I3.Gen.FFGLimbs
 namespace I3.Model.Limbs
-def ffRaw (_op : String) (_args : List String) : Option String := none
-def ffgRaw (_op : String) (_args : List String) : Option String := none
-def ffRawSpec (_op : String) (_args : List String) : Option String := none
-def ffgRawSpec (_op : String) (_args : List String) : Option String := none
+open I3
+
+def parseLimbs? (s : String) : Option (List Nat) :=
+  if s.startsWith "[" && s.endsWith "]" then
+    let inner := ((s.drop 1).dropEnd 1).toString
+    if inner.isEmpty then some [] else (inner.splitOn ",").mapM (fun t => t.toNat?)
+  else none
+
+def show4 (r : Nat × Nat × Nat × Nat) : String := s!"[{r.1},{r.2.1},{r.2.2.1},{r.2.2.2}]"
+def show1 (r : Nat) : String := s!"[{r}]"
+
+def val4 (l : List Nat) : Nat := l.foldr (fun x acc => x + W * acc) 0
+def limbs4 (v : Nat) : Nat × Nat × Nat × Nat := (v % W, v / W % W, v / W / W % W, v / W / W / W % W)
+
+/-- route suffix → which aliasing variant of the translated kernel is evaluated. -/
+def ffRaw (opFull : String) (args : List String) : Option String := do
+  let parts := opFull.splitOn "@"
+  let op := parts.headD ""
+  let pat := (parts.getD 1 "")
+  let pat := if pat.startsWith "generic-" then (pat.drop 8).toString else if pat = "generic" then "" else pat
+  match op, args with
+  | "mul", [x, y] =>
+    match (← parseLimbs? x), (← parseLimbs? y) with
+    | [x0,x1,x2,x3], [y0,y1,y2,y3] =>
+      let r := match pat with
+        | "zx" => Gen.FF.mulGeneric_zx x0 x1 x2 x3 y0 y1 y2 y3
+        | "zy" => Gen.FF.mulGeneric_zy y0 y1 y2 y3 x0 x1 x2 x3
+        | _ => Gen.FF.mulGeneric 0 0 0 0 x0 x1 x2 x3 y0 y1 y2 y3
+      pure (show4 r)
+    | _, _ => none
+  | "square", [x] =>
+    match (← parseLimbs? x) with
+    | [x0,x1,x2,x3] =>
+      let r := match pat with
+        | "zx" => Gen.FF.mulGeneric_zxy x0 x1 x2 x3
+        | _ => Gen.FF.mulGeneric_xy 0 0 0 0 x0 x1 x2 x3
+      pure (show4 r)
+    | _ => none
+  | "add", [x, y] =>
+    match (← parseLimbs? x), (← parseLimbs? y) with
+    | [x0,x1,x2,x3], [y0,y1,y2,y3] =>
+      let r := match pat with
+        | "zx" => Gen.FF.addGeneric_zx x0 x1 x2 x3 y0 y1 y2 y3
+        | "zy" => Gen.FF.addGeneric_zy y0 y1 y2 y3 x0 x1 x2 x3
+        | _ => Gen.FF.addGeneric 0 0 0 0 x0 x1 x2 x3 y0 y1 y2 y3
+      pure (show4 r)
+    | _, _ => none
+  | "sub", [x, y] =>
+    match (← parseLimbs? x), (← parseLimbs? y) with
+    | [x0,x1,x2,x3], [y0,y1,y2,y3] =>
+      let r := match pat with
+        | "zx" => Gen.FF.subGeneric_zx x0 x1 x2 x3 y0 y1 y2 y3
+        | "zy" => Gen.FF.subGeneric_zy y0 y1 y2 y3 x0 x1 x2 x3
+        | _ => Gen.FF.subGeneric 0 0 0 0 x0 x1 x2 x3 y0 y1 y2 y3
+      pure (show4 r)
+    | _, _ => none
+  | "double", [x] =>
+    match (← parseLimbs? x) with
+    | [x0,x1,x2,x3] =>
+      let r := match pat with
+        | "zx" => Gen.FF.doubleGeneric_zx x0 x1 x2 x3
+        | _ => Gen.FF.doubleGeneric 0 0 0 0 x0 x1 x2 x3
+      pure (show4 r)
+    | _ => none
+  | "neg", [x] =>
+    match (← parseLimbs? x) with
+    | [x0,x1,x2,x3] =>
+      let r := match pat with
+        | "zx" => Gen.FF.negGeneric_zx x0 x1 x2 x3
+        | _ => Gen.FF.negGeneric 0 0 0 0 x0 x1 x2 x3
+      pure (show4 r)
+    | _ => none
+  | "frommont", [x] =>
+    match (← parseLimbs? x) with
+    | [x0,x1,x2,x3] => pure (show4 (Gen.FF.fromMontGeneric x0 x1 x2 x3))
+    | _ => none
+  | "reduce", [x] =>
+    match (← parseLimbs? x) with
+    | [x0,x1,x2,x3] => pure (show4 (Gen.FF.reduceGeneric x0 x1 x2 x3))
+    | _ => none
+  | "halve", [x] =>
+    match (← parseLimbs? x) with
+    | [x0,x1,x2,x3] => pure (show4 (Gen.FF.Halve x0 x1 x2 x3))
+    | _ => none
+  | "butterfly", [x, y] =>
+    match (← parseLimbs? x), (← parseLimbs? y) with
+    | [x0,x1,x2,x3], [y0,y1,y2,y3] =>
+      let (a0,a1,a2,a3,b0,b1,b2,b3) := Gen.FF.butterflyGeneric x0 x1 x2 x3 y0 y1 y2 y3
+      pure s!"{show4 (a0,a1,a2,a3)} {show4 (b0,b1,b2,b3)}"
+    | _, _ => none
+  | "mulby3", [x] | "mulby5", [x] | "mulby13", [x] =>
+    let c := if op = "mulby3" then 3 else if op = "mulby5" then 5 else 13
+    match (← parseLimbs? x) with
+    | [x0,x1,x2,x3] => pure (show4 (Gen.FF.mulByConstant x0 x1 x2 x3 c))
+    | _ => none
+  | "inverse", [x] =>
+    -- Montgomery inverse: (x·R)⁻¹·R² ; value-level (the binary GCD loop is modelled in I3.Model.FFInverse)
+    let xm := val4 (← parseLimbs? x)
+    let R := W ^ 4
+    pure (show4 (limbs4 (invMod xm q * (R % q) % q * (R % q) % q)))
+  | "backend", [] => pure "adx=?"
+  | _, _ => none
+
+def ffgRaw (opFull : String) (args : List String) : Option String := do
+  let parts := opFull.splitOn "@"
+  let op := parts.headD ""
+  let pat := (parts.getD 1 "")
+  let pat := if pat.startsWith "generic-" then (pat.drop 8).toString else if pat = "generic" then "" else pat
+  match op, args with
+  | "mul", [x, y] =>
+    match (← parseLimbs? x), (← parseLimbs? y) with
+    | [x0], [y0] =>
+      pure (show1 (match pat with
+        | "zx" => Gen.FFG.mulGeneric_zx x0 y0
+        | "zy" => Gen.FFG.mulGeneric_zy y0 x0
+        | _ => Gen.FFG.mulGeneric 0 x0 y0))
+    | _, _ => none
+  | "square", [x] =>
+    match (← parseLimbs? x) with
+    | [x0] => pure (show1 (match pat with | "zx" => Gen.FFG.mulGeneric_zxy x0 | _ => Gen.FFG.mulGeneric_xy 0 x0))
+    | _ => none
+  | "add", [x, y] =>
+    match (← parseLimbs? x), (← parseLimbs? y) with
+    | [x0], [y0] =>
+      pure (show1 (match pat with
+        | "zx" => Gen.FFG.addGeneric_zx x0 y0
+        | "zy" => Gen.FFG.addGeneric_zy y0 x0
+        | _ => Gen.FFG.addGeneric 0 x0 y0))
+    | _, _ => none
+  | "sub", [x, y] =>
+    match (← parseLimbs? x), (← parseLimbs? y) with
+    | [x0], [y0] =>
+      pure (show1 (match pat with
+        | "zx" => Gen.FFG.subGeneric_zx x0 y0
+        | "zy" => Gen.FFG.subGeneric_zy y0 x0
+        | _ => Gen.FFG.subGeneric 0 x0 y0))
+    | _, _ => none
+  | "double", [x] =>
+    match (← parseLimbs? x) with
+    | [x0] => pure (show1 (match pat with | "zx" => Gen.FFG.doubleGeneric_zx x0 | _ => Gen.FFG.doubleGeneric 0 x0))
+    | _ => none
+  | "neg", [x] =>
+    match (← parseLimbs? x) with
+    | [x0] => pure (show1 (match pat with | "zx" => Gen.FFG.negGeneric_zx x0 | _ => Gen.FFG.negGeneric 0 x0))
+    | _ => none
+  | "frommont", [x] =>
+    match (← parseLimbs? x) with
+    | [x0] => pure (show1 (Gen.FFG.fromMontGeneric x0))
+    | _ => none
+  | "reduce", [x] =>
+    match (← parseLimbs? x) with
+    | [x0] => pure (show1 (Gen.FFG.reduceGeneric x0))
+    | _ => none
+  | "halve", [x] =>
+    -- ffg.Halve multiplies by the inverse of two (no limb kernel of its own)
+    match (← parseLimbs? x) with
+    | [x0] => pure (show1 (x0 * invMod 2 gp % gp))
+    | _ => none
+  | "butterfly", [x, y] =>
+    match (← parseLimbs? x), (← parseLimbs? y) with
+    | [x0], [y0] =>
+      let (a0, b0) := Gen.FFG.butterflyGeneric x0 y0
+      pure s!"{show1 a0} {show1 b0}"
+    | _, _ => none
+  | "mulby3", [x] | "mulby5", [x] | "mulby13", [x] =>
+    let c := if op = "mulby3" then 3 else if op = "mulby5" then 5 else 13
+    match (← parseLimbs? x) with
+    | [x0] => pure (show1 (Gen.FFG.mulByConstant x0 c))
+    | _ => none
+  | "inverse", [x] =>
+    match (← parseLimbs? x) with
+    | [x0] => pure (show1 (invMod x0 gp * (W % gp) % gp * (W % gp) % gp))
+    | _ => none
+  | _, _ => none
+
+/-- value-level reference for the raw ops: Montgomery limbs ↦ the field operation on `val·R⁻¹`. -/
+def rawSpec (m : Nat) (nl : Nat) (opFull : String) (args : List String) : Option String := do
+  let op := (opFull.splitOn "@").headD ""
+  let R := W ^ nl
+  let Rinv := invMod (R % m) m
+  let out (v : Nat) : String :=
+    "[" ++ ",".intercalate ((List.range nl).map fun i => toString (v / W ^ i % W)) ++ "]"
+  let a ← args.mapM parseLimbs?
+  let vals := a.map val4
+  match op, vals with
+  | "mul", [x, y] => pure (out (x * y % m * Rinv % m))
+  | "square", [x] => pure (out (x * x % m * Rinv % m))
+  | "add", [x, y] => pure (out ((x + y) % m))
+  | "sub", [x, y] => pure (out ((x + (m - y % m)) % m))
+  | "double", [x] => pure (out ((x + x) % m))
+  | "neg", [x] => pure (out ((m - x % m) % m))
+  | "frommont", [x] => pure (out (x * Rinv % m))
+  | "reduce", [x] => pure (out (if x < m then x else x - m))
+  | "halve", [x] => pure (out (x * invMod 2 m % m))
+  | "butterfly", [x, y] => pure (out ((x + y) % m) ++ " " ++ out ((x + (m - y % m)) % m))
+  | "mulby3", [x] => pure (out (3 * x % m))
+  | "mulby5", [x] => pure (out (5 * x % m))
+  | "mulby13", [x] => pure (out (13 * x % m))
+  | "inverse", [x] => pure (out (invMod x m * (R % m) % m * (R % m) % m))
+  | _, _ => pure "-"
+
+def ffRawSpec (op : String) (args : List String) : Option String := rawSpec q 4 op args
+def ffgRawSpec (op : String) (args : List String) : Option String := rawSpec gp 1 op args
+
 end I3.Model.Limbs
